@@ -45,7 +45,7 @@ Print Assumptions C02_rt_is_modular_idiv_mod.
 
 (* rt_is_modular, shifts: every emitted helper computes Nelua's documented shift on the
    representation of its first parameter, for every value of its two parameters ... *)
-Theorem C02_rt_shift_helpers : forall t f a b, in_range t a -> in_range (to_signed t) b ->
+Theorem C02_rt_shift_helpers : forall t f a b, in_range t a -> in_range I64 b ->
   (In (t, f) shl_table -> ccall Gnu f [a; b] = Oval (wrap t (exact_shl t a b))) /\
   (In (t, f) shr_table -> wf_ity t -> ccall Gnu f [a; b] = Oval (wrap t (exact_shr t a b))) /\
   (In (t, f) asr_table -> ccall Gnu f [a; b] = Oval (wrap t (exact_asr t a b))).
@@ -57,24 +57,25 @@ Proof.
 Qed.
 Print Assumptions C02_rt_shift_helpers.
 
-(* ... hence the operators are modular whenever the count is representable in the signed
-   version of the LEFT operand's type (partial: see C02_rt_shift_count_narrowed) *)
-Theorem C02_rt_is_modular_shifts_partial : forall lt rt a b,
-  wf_ity lt -> in_range lt a -> in_range (to_signed lt) b ->
+(* ... hence (helpers take the count as int64 since 2cffa35) the operators are modular for every
+   count representable in int64, i.e. for every count type except uint64/usize values >= 2^63 *)
+Theorem C02_rt_is_modular_shifts : forall lt rt a b,
+  wf_ity lt -> in_range lt a -> in_range I64 b ->
   rt_bin Bshl lt rt a b = Rval lt (wrap lt (exact_shl lt a b)) /\
   rt_bin Bshr lt rt a b = Rval lt (wrap lt (exact_shr lt a b)) /\
   rt_bin Basr lt rt a b = Rval lt (wrap lt (exact_asr lt a b)).
 Proof.
   intros. repeat split; [apply rt_shl_partial | apply rt_shr_partial | apply rt_asr_partial]; assumption.
 Qed.
-Print Assumptions C02_rt_is_modular_shifts_partial.
+Print Assumptions C02_rt_is_modular_shifts.
 
-(* known defect: the count is narrowed to the left operand's type *)
-Theorem C02_rt_shift_count_narrowed :
-  rt_bin Bshl I8 I32 1 257 = Rval I8 2 /\ fold_bin Bshl I8 I32 1 257 false false = Fval I8 0 /\
-  exact_bin Bshl I8 1 257 = Some 0.
-Proof. exact rt_shift_count_narrowed. Qed.
-Print Assumptions C02_rt_shift_count_narrowed.
+(* still false: a uint64 count >= 2^63 is negative once converted to the helper's int64 parameter *)
+Theorem C02_rt_shift_uint64_count_refuted :
+  rt_bin Bshl U64 U64 82 18446744073709551615 = Rval U64 41 /\
+  fold_bin Bshl U64 U64 82 18446744073709551615 false false = Fval U64 0 /\
+  exact_bin Bshl U64 82 18446744073709551615 = Some 0.
+Proof. exact rt_shift_uint64_count. Qed.
+Print Assumptions C02_rt_shift_uint64_count_refuted.
 
 (* comparisons: exact on both sides, for all types (mixed signedness included) and values *)
 Theorem C02_comparisons_agree : forall o lt rt a b, wf_ity lt -> wf_ity rt -> is_cmpop o = true ->
@@ -85,18 +86,17 @@ Proof.
 Qed.
 Print Assumptions C02_comparisons_agree.
 
-(* fold_agrees, full strength (Proofs.fold_agrees): for typed constant operands representable in
-   the run-time result type T, the folded (type, value) has its value inside its type; if the
-   exact result is representable in T the baked value is the exact result; otherwise the fold
-   carries the exact result or bakes what the run time computes.  FALSE on the unchanged tree: *)
-Theorem C02_fold_agrees_refuted : ~ fold_agrees.
-Proof. exact fold_agrees_refuted. Qed.
-Print Assumptions C02_fold_agrees_refuted.
-
-Theorem C02_fold_agrees_refuted_witnesses :
-  ~ fold_agrees_at Bmul I64 I64 9223372036854775807 3 /\ ~ fold_agrees_at Bshl I8 I8 77 2.
-Proof. split; [exact fold_agrees_refuted_mul | exact fold_agrees_refuted_shl]. Qed.
-Print Assumptions C02_fold_agrees_refuted_witnesses.
+(* fold_agrees (Proofs.fold_agrees_at, full strength) for + - *: for typed constant operands
+   of ANY types and values representable in the run-time result type T, the constant expression
+   is never rejected, the folded value lies inside its type, it is the exact result whenever T
+   can represent it, and otherwise it is the exact result carried by a wider/signed type or
+   bakes exactly what the run time computes.  (For the other operators the same statement is
+   checked by the oracle on every run; proved pieces: C02_fold_agrees_partial for // %,
+   C02_comparisons_agree.) *)
+Theorem C02_fold_agrees_arith : forall o lt rt a b, wf_ity lt -> wf_ity rt ->
+  (o = Badd \/ o = Bsub \/ o = Bmul) -> fold_agrees_at o lt rt a b.
+Proof. exact fold_agrees_arith. Qed.
+Print Assumptions C02_fold_agrees_arith.
 
 (* fold_agrees_partial: + - * // % on typed constants fold to the exact result carried by a
    type that holds it whenever int64 (or uint64 for unsigned, non-negative) can hold it *)
@@ -107,28 +107,14 @@ Theorem C02_fold_agrees_partial : forall o lt rt a b e, wf_ity lt -> wf_ity rt -
 Proof. exact fold_agrees_partial. Qed.
 Print Assumptions C02_fold_agrees_partial.
 
-(* wrap_value: correct only within |v| <= 2^bits (and always for unsigned types), always congruent *)
-Theorem C02_wrap_value_partial : forall t v, wf_ity t ->
-  ((- tmod t <= v <= tmod t \/ sgn t = false) -> wrap_value t v = wrap t v) /\
-  wrap t (wrap_value t v) = wrap t v.
-Proof.
-  intros t v Ht. split; [intros [H | H]|].
-  - apply wrap_value_one_wrap; assumption.
-  - apply wrap_value_unsigned; assumption.
-  - apply wrap_value_congruent; assumption.
-Qed.
-Print Assumptions C02_wrap_value_partial.
+(* wrap_value (59c538f) is the two's complement reduction of every integer *)
+Theorem C02_wrap_value_correct : forall t v, wf_ity t -> wrap_value t v = wrap t v /\ in_range t (wrap_value t v).
+Proof. intros t v Ht. split; [apply wrap_value_correct | apply wrap_value_range]; exact Ht. Qed.
+Print Assumptions C02_wrap_value_correct.
 
-Theorem C02_wrap_value_refuted :
-  exists t v, wf_ity t /\ wrap_value t v <> wrap t v /\ ~ in_range t (wrap_value t v).
-Proof. exact wrap_value_refuted. Qed.
-Print Assumptions C02_wrap_value_refuted.
-
-(* add_scalar_literal's re-wrap: what is printed is congruent to the constant, and is its
-   reduction into the type whenever |v| <= 2^bits *)
-Theorem C02_baked_literal : forall t v, wf_ity t ->
-  wrap t (baked t v) = wrap t v /\ (- tmod t <= v <= tmod t -> baked t v = wrap t v).
-Proof. intros t v Ht. split; [apply baked_congruent | apply baked_one_wrap]; assumption. Qed.
+(* add_scalar_literal: what is printed for a constant is its reduction into the type *)
+Theorem C02_baked_literal : forall t v, wf_ity t -> baked t v = wrap t v.
+Proof. exact baked_correct. Qed.
 Print Assumptions C02_baked_literal.
 
 (* conv_rejected_iff: an implicit constant conversion is rejected exactly when the destination
